@@ -134,7 +134,7 @@ theorem py_numpy_capsule_setbase_failure_double_release :
 /-- structural reasons for a block to misbehave when a LATER argument's post_call fails -/
 def Blk.lateRisk (b : Blk) : Bool :=
   b.post.any (fun e => e.1 == 3) ||                           -- released in post_call, released again in fail
-  (b.post.contains (1, 0) && !b.fail.contains (3, 0)) ||      -- result object not dropped in fail
+  ((b.post.contains (1, 0) || b.post.contains (2, 0)) && !b.fail.contains (3, 0)) ||  -- result object / extra reference not dropped in fail
   (b.fail.contains (3, 3) && b.post.any (fun e => e.1 == 5))  -- memory given away, still freed in fail
 
 theorem py_blocks_late_failure_classified :
@@ -152,5 +152,49 @@ theorem py_table_nonvacuous :
 
 example : ∀ b ∈ [(⟨[(1, 1)], [], [], [(3, 1)], [(3, 1)], false⟩ : Blk),
                  ⟨[], [(1, 3)], [(1, 0)], [(3, 3), (4, 3)], [(3, 0), (3, 3)], true⟩], b.check true = true := by decide
+
+/-! ### member descriptors: any sequence of assignments, failed assignments and reads -/
+
+theorem member_step_clean (m : Member) (hc : m.check = true) (s : St) (hs : s ∈ cleanStates) (o : DOp) :
+    m.run s o ∈ cleanStates ∧ (runEvs m.dealloc s).settled = true := by
+  unfold Member.check at hc
+  rw [List.all_eq_true] at hc
+  have h := hc s hs
+  simp only [Bool.and_eq_true, List.all_eq_true] at h
+  refine ⟨?_, h.2⟩
+  have ho : o ∈ [DOp.setOk, .setBad, .get] := by cases o <;> simp
+  have := h.1 o ho
+  simpa using this
+
+/-- **every call sequence on one object**: if the member's generated setter / getter / dealloc code
+    passes the check, then after ANY sequence of successful assignments, failed assignments
+    (conversion error) and reads, followed by the deallocation of the object, every reference the
+    object owned has been released exactly once: nothing is still owned, nothing was released twice,
+    no owned reference was overwritten -/
+theorem member_sequences_release_exactly_once (m : Member) (hc : m.check = true) (ops : List DOp) :
+    (runEvs m.dealloc (m.runAll St.init ops)).settled = true := by
+  have hinit : St.init ∈ cleanStates := by simp [cleanStates, St.init]
+  suffices ∀ s, s ∈ cleanStates → (runEvs m.dealloc (m.runAll s ops)).settled = true from this _ hinit
+  induction ops with
+  | nil => intro s hs; exact (member_step_clean m hc s hs .get).2
+  | cons o os ih =>
+    intro s hs
+    simp only [Member.runAll, List.foldl_cons]
+    exact ih _ (member_step_clean m hc s hs o).1
+
+/-- **table**: every effective `py_descr_*` block of `wrapp.py_statements` (both languages), with the
+    release lines of `Wrapp.tp_del`, passes the check -/
+theorem py_members_release_exactly_once : ∀ r ∈ members, r.2.2.check = true := by decide +kernel
+
+/-- sensitivity witness: a setter whose error branch clears the other variable (the released one
+    keeps its stale pointer) fails the check; *assign, failed assign, dealloc* releases twice -/
+theorem member_stale_pointer_double_release :
+    (⟨[(3, 1)], [(4, 0)], [(2, 1)], [], [(3, 0), (3, 1)]⟩ : Member).check = false ∧
+    (runEvs [(3, 0), (3, 1)] ((⟨[(3, 1)], [(4, 0)], [(2, 1)], [], [(3, 0), (3, 1)]⟩ : Member).runAll St.init
+      [.setOk, .setBad])).dbl = true := by decide
+
+theorem py_members_nonvacuous :
+    (members.filter (fun r => r.2.2.onOk ≠ [])).length ≥ 6 ∧ (members.filter (fun r => r.2.2.getter ≠ [])).length ≥ 2 := by
+  decide +kernel
 
 end Shroud.PyRes
